@@ -284,6 +284,32 @@ def oracle_c16(cid, impl, m):
     return None
 
 
+def oracle_c16_store(cid, impl, m):
+    """Names after rolled-back and retried writes (stream store-faults): every complete listing returns exactly
+    the strings the specification predicts for the relationships stored (a name written by a request that was
+    rolled back and then written again must still be readable), and the mapping table is the model's."""
+    if "spec" not in m:
+        return None
+    for i in _store_items(m):
+        msg = _la_ok(i, impl, m)
+        if msg:
+            return ("c16-names-after-rollback", msg)
+        if impl.get(f"s{i}") == "ok" and impl.get(f"u{i}") is not None and m.get(f"u{i}") is not None and impl[f"u{i}"] != m[f"u{i}"]:
+            return ("c16-mapping-table", f"item {i} ({m.get(f'k{i}')}): mapping table {impl[f'u{i}']} but the model predicts {m[f'u{i}']}")
+    return True
+
+
+def oracle_c16_tree(cid, impl, m):
+    """ToTree: the trees returned by REST and gRPC expand (UUIDs mapped back to strings, node by node) are the
+    engine's tree - every name in the right node, at every depth and sibling position."""
+    if "tree" not in impl:
+        return None
+    if impl.get("transports_agree", "1") != "1":
+        return ("c16-tree", f"REST / gRPC expand trees differ from the engine's tree: rest={impl.get('x_rest', '')[:200]} "
+                            f"grpc={impl.get('x_grpc', '')[:200]} engine={impl['tree'][:200]}")
+    return True
+
+
 def oracle_c14(cid, impl, m):
     """Concurrently served requests answer what they answer alone."""
     if "same" in impl:
@@ -463,13 +489,38 @@ def oracle_c07(cid, impl, m):
     return True
 
 
+def oracle_c07_expand(cid, impl, m):
+    """Internal consumer of the pagination (expand): every child of every page exactly once - the
+    implementation's tree is the model's tree (which lists every stored tuple of a node once), no subject
+    set is expanded twice, nothing reachable is missing when no depth cut happened."""
+    v = oracle_c09(cid, impl, m)
+    if v is None or v is True:
+        return v
+    tag, msg = v
+    if tag in ("expand-dfs-order",):
+        return None          # C09's known finding, not a pagination matter
+    return ("c07-internal-" + tag, "expand (internal page loop): " + msg)
+
+
+def oracle_c07_engine(cid, impl, m):
+    """Internal consumers of the pagination (check): the traverser's pages of subject sets and the pages of
+    the tuple-to-subject-set listing must yield every row once: the decision equals the reference semantics."""
+    v = oracle_c01(cid, impl, m)
+    if v is None or v is True:
+        return v
+    return ("c07-internal-" + v[0], "check over a node wider than a page: " + v[1])
+
+
 def oracle_c17(cid, impl, m):
     """The read API leaves every table byte-identical (changed = 0 on the implementation; the model's reads are
     state preserving by C17_readonly)."""
     if "changed" not in impl:
         return None
     if impl["changed"] != "0":
-        return ("c17-changed", "the database differs after a sequence of read-API requests")
+        return ("c17-changed", "the database differs after a sequence of read-API requests"
+                               + (f" (write requests accepted by: {impl['x_write_accepted']})" if impl.get("x_write_accepted") else ""))
+    if impl.get("x_write_accepted"):
+        return ("c17-write-served", f"a write request was answered as carried out by the read/syntax API: {impl['x_write_accepted']}")
     return True
 
 
@@ -701,12 +752,16 @@ PROPS = {
         "theorems": ["Keto.Store.C05_all_or_nothing", "Keto.Store.C05_error_iff", "Keto.Store.C05_kth_statement_fails",
                      "Keto.Store.C05_requests_all_or_nothing", "Keto.Store.C05_apply_chunk_independent",
                      "Keto.Store.C05_single_tx", "Keto.Store.C05_handlers_one_write"],
-        "streams": [{"name": "store-faults", "n": {"quick": 300, "thorough": 1500}, "oracle": oracle_c05, "thorough_seeds": 3}],
+        "streams": [{"name": "store-faults", "n": {"quick": 300, "thorough": 1500}, "oracle": oracle_c05, "thorough_seeds": 3},
+                    {"name": "store", "n": {"quick": 200, "thorough": 2000}, "oracle": oracle_c05, "thorough_seeds": 2}],
         "rule": ("histories of 3-8 requests with sqlite triggers that abort an INSERT of a row with relation 'poison', a DELETE of a "
                  "stored row with relation 'dpoison', a mapping INSERT of 'poison-string': exactly the chunk holding the poison fails; "
                  "insert lists of 1,2,5,99,100,101 and (3 cases per run) 3000/3001, delete lists of 3,99,100,101,200,201 with the "
                  "poison at index 0/middle/last, combined with inserts in the same request; all write kinds; full dump of both "
-                 "tables before/after; non-trivial = at least one request rolled back"),
+                 "tables before/after; twice per 300 cases a request with > 15000 distinct strings (two mapping INSERTs) one of "
+                 "which is the poison string; non-trivial = at least one request rolled back; stream store (see C04): requests "
+                 "with an invalid member at any position (unknown namespace, no subject, null tuple, null delta, unknown action) "
+                 "are rejected as a whole"),
         "partial": "",
         "assumptions": ["the database's transaction contract (working copy committed at the end, dropped on error) is trusted; "
                         "only sqlite is exercised",
@@ -730,8 +785,12 @@ PROPS = {
                      "Keto.Store.C07_interleaved_histories", "Keto.Store.C07_negative_size_rejected",
                      "Keto.Store.C07_negative_size_rejected_api", "Keto.Store.C07_bad_token_rejected",
                      "Keto.Store.C07_bad_token_rejected_api"],
-        "streams": [{"name": "store", "n": {"quick": 300, "thorough": 3000}, "oracle": oracle_c07, "thorough_seeds": 3}],
-        "rule": STORE_RULE + "; iterations with small page sizes over tables of >= 4 rows are interleaved with inserts and deletes "
+        "streams": [{"name": "store", "n": {"quick": 300, "thorough": 3000}, "oracle": oracle_c07, "thorough_seeds": 3},
+                    {"name": "expand", "n": {"quick": 150, "thorough": 1000}, "oracle": oracle_c07_expand, "thorough_seeds": 2},
+                    {"name": "engine-wide", "n": {"quick": 10, "thorough": 80}, "oracle": oracle_c07_engine, "thorough_seeds": 2}],
+        "rule": STORE_RULE + "; internal consumers of the pagination: stream expand (nodes with more children than a page, small page "
+                "sizes) and stream engine-wide (more than 1000 subject sets on one object#relation: pages of the traverser; more than 100 "
+                "parents on a traversed relation and page sizes 1-3: pages of the tuple-to-subject-set listing); iterations with small page sizes over tables of >= 4 rows are interleaved with inserts and deletes "
                 "of other rows between the fetches",
         "partial": "",
         "assumptions": ["WF: the table is in shard order with distinct non-nil shard ids (preserved by every request that gets fresh "
@@ -745,7 +804,9 @@ PROPS = {
         "rule": ("3-10 writes, then a byte-level snapshot of keto_relation_tuples and keto_uuid_mappings (+ row counts of every "
                  "other table), then 5-25 read-API requests with never-seen and known names: REST GET list, gRPC "
                  "ListRelationTuples, Persister Get/Exists, REST GET/POST check (+openapi variants), batch check, expand, list "
-                 "namespaces, OPL syntax check, and the gRPC Check/BatchCheck/Expand/ListNamespaces/syntax methods; changed = the "
+                 "namespaces, OPL syntax check, and the gRPC Check/BatchCheck/Expand/ListNamespaces/syntax methods; then write requests "
+                 "(PUT/PATCH/DELETE, gRPC Transact/Delete) sent to the read and syntax routers and to the read and syntax gRPC servers "
+                 "as the daemon builds them (in-memory connection); changed = the "
                  "snapshot differs afterwards; non-trivial = at least one successful write before the snapshot"),
         "partial": "",
         "assumptions": ["the tie 'every handler of the read routers uses ReadOnlyMapper and only Get/Exists/Traverse*' is the "
@@ -782,7 +843,9 @@ PROPS = {
                      "Keto.C16_readonly_no_insert", "Keto.C16_error_no_insert", "Keto.C16_table_invariant",
                      "Keto.C16_query_roundtrip", "Keto.C16_known_after_write", "Keto.C16_known_readonly",
                      "Keto.C16_tree", "Keto.C16_seedOrder_perm"],
-        "streams": [{"name": "mapper", "n": {"quick": 300, "thorough": 1500}, "oracle": oracle_c16, "thorough_seeds": 3}],
+        "streams": [{"name": "mapper", "n": {"quick": 300, "thorough": 1500}, "oracle": oracle_c16, "thorough_seeds": 3},
+                    {"name": "store-faults", "n": {"quick": 150, "thorough": 800}, "oracle": oracle_c16_store, "thorough_seeds": 2},
+                    {"name": "expand", "n": {"quick": 150, "thorough": 1000}, "oracle": oracle_c16_tree, "thorough_seeds": 2}],
         "rule": ("batches of 1..250 API tuples (sizes 1/2/3, 49-51, 99-101, 149-151, 199-201, 249/250 emphasised, 40% uniform) in four "
                  "modes: all names fresh and distinct (up to 500 distinct ids = 5 lookup pages), a pool of 1-8 adversarial names "
                  "(heavy repeats, same name as object and subject), mixed, names already in the table plus new ones; names from an "
@@ -794,7 +857,9 @@ PROPS = {
                  "3 of 4 cases: ReadOnlyMapper.FromTuple→ToTuple, then Mapper.FromTuple→ToTuple on in-memory sqlite with a dump "
                  "of keto_uuid_mappings before/after; 1 of 4: REST PATCH/PUT → REST list, gRPC list, REST list filtered by object, "
                  "REST and gRPC expand, field by field; a new database every 40 cases; "
-                 "non-trivial = more than one tuple, or object = subject; distinct = distinct protocol lines"),
+                 "non-trivial = more than one tuple, or object = subject; distinct = distinct protocol lines; "
+                 "stream store-faults (see C05): names written by a request that is rolled back and then written again; "
+                 "stream expand (see C09): trees of every shape through Mapper.ToTree (REST, gRPC) against the engine's tree"),
         "partial": "",
         "assumptions": ["UUIDv5(network id, ·) is a parameter h of the model; C16_roundtrip / C16_unaliased assume h injective on the "
                         "strings of the batch and of the table (InjOn, an explicit hypothesis; the example with a colliding h shows it is "
@@ -890,7 +955,8 @@ PROPS = {
         "theorems": ["Keto.C01_depth_sites_tie", "Keto.C01_sound_pos", "Keto.build_sound", "Keto.Cfg.pos_of_posB",
                      "Keto.C01_complete_pos_general", "Keto.C01_exact_pos_general", "Keto.C01_complete_pos", "Keto.C01_exact_pos",
                      "Keto.C01_complete_pos_strict", "Keto.C01_complete_norewrite", "Keto.C01_complete_strict_counterexample"],
-        "streams": [{"name": "engine-c01", "n": {"quick": 250, "thorough": 3000}, "oracle": oracle_c01, "thorough_seeds": 3}],
+        "streams": [{"name": "engine-c01", "n": {"quick": 250, "thorough": 3000}, "oracle": oracle_c01, "thorough_seeds": 3},
+                    {"name": "engine-wide", "n": {"quick": 10, "thorough": 80}, "oracle": oracle_c01, "thorough_seeds": 2}],
         "rule": ENGINE_RULE,
         "partial": "exactness (allowed iff member) is proved for configurations without '!' (Mem is the positive least fixpoint), in default mode and in strict mode on stores that conform to the declared types; for configurations with '!' the implementation is compared with the executable reference semantics refEval on every generated case whose limits are not binding; schedules: the sequential checkgroup semantics is proved to be what the concurrent group computes (C15_cg_*), and every fourth case also runs with the real concurrent group",
         "assumptions": [],
